@@ -262,7 +262,9 @@ Definition check_base_rate (a : list V) : bool :=
 
 (* common part of Product2 *)
 Definition product_core (p bb a : list V) : list V * V :=
-  let u := vmin (map3 (fun pi bi ai => div (sub pi bi) ai) p bb a) in
+  let m := vmin (map3 (fun pi bi ai => div (sub pi bi) ai) p bb a) in
+  (* the smallest quotient is >= 0 in exact arithmetic; a negative rounding residue is clamped (NaN stays NaN) *)
+  let u := if ltb m zero then zero else m in
   (map2 (fun pi ai => sub pi (mul ai u)) p a, u).
 
 (* unlabelled Product2 (validated by Opinion::new: None = panic) *)
